@@ -53,14 +53,14 @@ Proof.
   - apply IH. inversion H; assumption.
 Qed.
 
-(* badness_nonincreasing (a-step): replacing a by astep() never increases chi-square + penalty *)
+(* badness_nonincreasing (a-step): replacing a by astep_ref() never increases chi-square + penalty *)
 Theorem badness_nonincreasing_astep s w a g eps anew :
-  astep s w g = Some anew ->
+  astep_ref s w g = Some anew ->
   length a = length s -> length w = length s -> rows_len (length g) a -> Forall (Forall (fun v => 0 <= v)) w ->
   badness s w anew g eps <= badness s w a g eps.
 Proof.
   intros H La Lw Ha Hw. unfold badness. rewrite !chi2_mat_rows.
-  unfold astep in H. rewrite map2_combine in H.
+  unfold astep_ref in H. rewrite map2_combine in H.
   assert (vsum (map2 (rowchi2 g) (combine s w) anew) <= vsum (map2 (rowchi2 g) (combine s w) a)).
   { apply rows_monotone; auto.
     - apply Forall_combine_snd. exact Hw.
